@@ -116,7 +116,7 @@ func dirEntry(name string, l ipld.Link) dagpb.PBLink {
 
 // hostile name and target alphabets; SB is replaced by the sandbox path
 var c17Names = []string{"a", "b", "c", "evil", "evil", "x", "unknown", "..", "../x", "../../victim/f", "../victim/new",
-	"a/b", "evil/x", "/abs", "./c", "", ".", "x/../..", "x/../../victim/f", "victim", "é", "a\\b", " ", "evil/../evil", "a//b", "sub", "sub/deep"}
+	"a/b", "a/keep", "evil/keep", "x/b", "sub/keep", "evil/x", "/abs", "./c", "", ".", "x/../..", "x/../../victim/f", "victim", "é", "a\\b", " ", "evil/../evil", "a//b", "sub", "sub/deep"}
 var c17Targets = []string{"SB/victim/f", "SB/victim", "SB/victim/new", "SB/victim/newdir/", "../victim/f", "../victim", "../../victim/f", ".",
 	"..", "a", "b", "/", "SB/out", "SB/out/a", "evil", "nonexistent", "../victim/new", "SB", "/nonexistent-root-dir/x", "sub", "./"}
 
@@ -124,7 +124,8 @@ var c17Targets = []string{"SB/victim/f", "SB/victim", "SB/victim/new", "SB/victi
 // exists (or can be created) outside
 func (g *Gen) c17Target() string {
 	if g.pick(2) == 0 {
-		return []string{"SB/victim/f", "SB/victim/new", "../victim/f", "../victim/new", "SB/victim", "../victim", "SB/victim/d/g"}[g.pick(7)]
+		return []string{"SB/victim/f", "SB/victim/new", "../victim/f", "../victim/new", "SB/victim", "../victim", "SB/victim/d/g",
+			"../out-old", "SB/out-old", "../out-old/keep", "../out2", "SB/out-old/sub"}[g.pick(12)]
 	}
 	return c17Targets[g.pick(len(c17Targets))]
 }
@@ -421,6 +422,11 @@ func famC17(g *Gen, o *Out, n int, thorough bool) {
 		os.MkdirAll(filepath.Join(sb, "victim", "d"), 0o755)
 		os.WriteFile(filepath.Join(sb, "victim", "f"), []byte("precious"), 0o644)
 		os.WriteFile(filepath.Join(sb, "victim", "d", "g"), []byte("also"), 0o644)
+		// siblings whose names merely start with the output directory's name
+		os.MkdirAll(filepath.Join(sb, "out-old", "sub"), 0o755)
+		os.WriteFile(filepath.Join(sb, "out-old", "keep"), []byte("keep me"), 0o644)
+		os.WriteFile(filepath.Join(sb, "out-old", "b"), []byte("keep b"), 0o644)
+		os.WriteFile(filepath.Join(sb, "out2"), []byte("a file next door"), 0o644)
 		outArg := filepath.Join(sb, "out")
 		realOut := "out"
 		switch g.pick(12) {
